@@ -40,11 +40,43 @@ func implSpec(b []byte) (out string) {
 			out = "panic"
 		}
 	}()
-	s, err := ech.Config(b).Spec()
+	out, _ = parseTwice(b)
+	return out
+}
+
+// parseTwice parses b the way callers do: from a buffer of their own, which they go on to reuse, into
+// a spec of their own, which they go on to edit - and then parses the same bytes once more. Both
+// parses must tell the same story.
+func parseTwice(b []byte) (out string, unstable string) {
+	buf := bytes.Clone(b)
+	s, err := ech.Config(buf).Spec()
 	if err != nil {
-		return "err"
+		return "err", ""
 	}
-	return "ok " + specStr(s)
+	first := specStr(s)
+	for i := range buf {
+		buf[i] = 'X'
+	}
+	for i := range s.PublicKey {
+		s.PublicKey[i] = 0xde
+	}
+	for i := range s.PublicName {
+		s.PublicName[i] = 'X'
+	}
+	for i := range s.CipherSuites {
+		s.CipherSuites[i].KDF, s.CipherSuites[i].AEAD = 0xdead, 0xbeef
+	}
+	s2, err2 := ech.Config(bytes.Clone(b)).Spec()
+	switch {
+	case err2 != nil:
+		unstable = "second parse of the same bytes failed: " + err2.Error()
+	case specStr(s2) != first:
+		unstable = "second parse of the same bytes gives " + specStr(s2) + ", the first gave " + first
+	}
+	if unstable != "" {
+		return "ok " + first + " (unstable)", unstable
+	}
+	return "ok " + first, ""
 }
 
 func implParseList(b []byte) (out string) {
@@ -142,6 +174,10 @@ func genC11(env *core.Env, emit func(core.Case)) {
 			if s.Version == 0xfe0d && len(s.PublicKey) >= 1 && len(s.CipherSuites) >= 1 {
 				ops = append(ops, core.Op{Line: "cfg-wf " + core.Hex(enc), Kind: 'S', Note: "draft section 4 grammar accepts the encoding"})
 				valid = append(valid, enc)
+			}
+			if perr == nil {
+				_, unstable := parseTwice(enc)
+				ops = append(ops, core.Op{Kind: 'X', Note: "Spec() of the same bytes is the same, whatever earlier callers did with their buffer and their spec", Want: unstable})
 			}
 			// a parsed spec used as a template (key rotation): edit the fields, encode again - the encoding
 			// is a function of the fields as they are now, not of where the spec came from
